@@ -373,9 +373,10 @@ CLAIMED["C09"] = dict(
          "tokenizer satisfies and every step preserves; hence at every suspension current_line = 1 + breaks of all text fed "
          "so far, under any chunking (C09_line_after_input), and at every step line + breaks ahead = 1 + breaks of the "
          "whole text (C09_line_at_any_step); tokens are stamped with current_line and no transition changes it. The table "
-         "fact 'no entity name contains a line break' is kernel-checked over the regenerated table. PARTIAL: not restated "
-         "across Tokenizer::end (EOF transitions never touch the line); decided there by the EOF-line oracle on the real "
-         "code, which also checks every token of every cover input against the prefix consumed when it appears.",
+         "fact 'no entity name contains a line break' is kernel-checked over the regenerated table. Tokenizer::end never "
+         "moves the line (C09_eof_line: the EOF token carries 1 + breaks of the whole input). Outside the model: the tree "
+         "builder's forwarding (set_current_line; compared by the tb engine) and the byte-level SIMD popcount; the "
+         "EOF-line and prefix oracles decide the statement on the real code for every token of every cover input.",
     note="Trusted: Lean kernel; tokenizer model + tok correspondence (compares every line number); the prefix oracle allows the "
          "one-character window in which a look-ahead may or may not have consumed the current character.")
 CLAIMED["C01"] = dict(
